@@ -19,6 +19,13 @@ type vItem struct {
 // vGenStream builds a nondeterministic VALID frame stream of k frames (+ closing frames),
 // returning the wire bytes and the reference decomposition.
 func vGenStream(server bool, k int, maxPayload int, asciiText bool) ([]byte, []vItem) {
+	wire, items, _, _ := vGenStreamX(server, k, maxPayload, asciiText, true)
+	return wire, items
+}
+
+// vGenStreamX: with complete=false the stream is left as generated (possibly with an open
+// fragmented message, returned as cur when frag is true) and no sentinel is appended.
+func vGenStreamX(server bool, k int, maxPayload int, asciiText bool, complete bool) ([]byte, []vItem, bool, vItem) {
 	var wire []byte
 	var items []vItem
 	frag := false
@@ -87,6 +94,9 @@ func vGenStream(server bool, k int, maxPayload int, asciiText bool) ([]byte, []v
 			}
 		}
 	}
+	if !complete {
+		return wire, items, frag, cur
+	}
 	if frag { // close the open message with a final (possibly empty) continuation
 		n := vChoose("plen", 2)
 		p := frame(true, 0, n, "f")
@@ -99,7 +109,7 @@ func vGenStream(server bool, k int, maxPayload int, asciiText bool) ([]byte, []v
 	// sentinel message
 	p := frame(true, 2, 1, "sent")
 	items = append(items, vItem{op: 2, payload: p})
-	return wire, items
+	return wire, items, false, vItem{}
 }
 
 // vVariant picks one of three bounded sub-spaces (pairwise rather than full product):
